@@ -105,18 +105,24 @@ def explore(ctx, R, W, fn, args, op):
     return outs
 
 
-def mkcheck(op, orders, has_x=False, out_bytes=0, delta=0, two_grids=False, gen=False, extra_scalar=False, only=None):
+def mkcheck(op, orders, has_x=False, out_bytes=0, delta=0, two_grids=False, gen=False, extra_scalar=False, only=None, fixed_n=None, concrete_pts=False):
     def chk(ctx):
-        R = Result(op + ('' if only is None else '-' + only))
-        nmax = ctx['nmax']
+        R = Result(op + ('' if only is None else '-' + only) + ('' if fixed_n is None else '-n%d' % fixed_n))
+        nmax = fixed_n or ctx['nmax']
         variants = [only] if only else (['shared'] + (['distinct'] if two_grids else []))
         for variant in variants:
-            W = World(ctx['mod'], nmax); g = W.mk_grid('g'); grids = [g]
+            W = World(ctx['mod'], nmax); g = W.mk_grid('g', n=fixed_n, concrete_pts=concrete_pts); grids = [g]
+            if fixed_n: W.vars['g_n'] = bv(fixed_n)
             h = g
             if variant == 'distinct':
-                h = W.mk_grid('h'); grids.append(h)
+                h = W.mk_grid('h', n=fixed_n); grids.append(h)
+                if fixed_n: W.vars['h_n'] = bv(fixed_n)
             splines = []
             for i, o_ in enumerate(orders):
+                if fixed_n:   # long supports: the window is concrete ([1, n): n-2 intervals), points and coefficients symbolic
+                    W.vars['ab'[i] + '_start'] = bv(1); W.vars['ab'[i] + '_end'] = bv(fixed_n)
+                    splines.append(W.mk_spline('ab'[i], g if i == 0 else h, o_, start=bv(1), end=bv(fixed_n)))
+                    continue
                 splines.append(W.mk_spline('ab'[i], g if i == 0 else h, o_))
             args = []
             mem = None
@@ -139,7 +145,7 @@ def mkcheck(op, orders, has_x=False, out_bytes=0, delta=0, two_grids=False, gen=
             if outs and variant == 'shared':
                 control(R, outs[0].st, z3.BoolVal(False), op + '/path-feasible')
         return R
-    chk.__name__ = 'chk_' + op + ('' if only is None else '_' + only)
+    chk.__name__ = 'chk_' + op + ('' if only is None else '_' + only) + ('' if fixed_n is None else '_n%d' % fixed_n)
     return chk
 
 
@@ -195,4 +201,11 @@ def chk_module_scan(ctx):
     return R
 
 
-CHECKS = QUICK + THOROUGH + [chk_generate1, chk_module_scan]
+# long supports (grids of 10-11 points, sizes and windows concrete, points and coefficients symbolic): loops beyond 8 intervals.
+# (operator() on such a support - the binary search - exceeds the query budget and is left to Engine A: C02/C14 large variants)
+LARGE = [
+    mkcheck('iszero', [2], fixed_n=11),
+    mkcheck('linform', [2], fixed_n=11),
+    mkcheck('sequal', [2, 2], two_grids=True, fixed_n=10),
+]
+CHECKS = QUICK + THOROUGH + [chk_generate1, chk_module_scan] + LARGE
